@@ -319,6 +319,78 @@ def strip_const(args):
     return None
 
 
+def segment_scanner(ctx, prog):
+    """is_valid_url_segment as a scanner: for every printable-ASCII string of length 1..5 and *any* character predicate P its result
+    equals the ABNF reading `*( pct-encoded / P-char )` - a '%' must start a complete escape and every other character must satisfy P
+    (the predicates themselves are the character-class kernels above).  String iterators are modelled on ASCII (strmodels.py)."""
+    import panicmodels
+    import strmodels
+    from execu import State
+    from replay import run_replay
+    A = Auditor(ctx, prog)
+    f = prog.one(r'(^|::)is_valid_url_segment$')
+    P = z3.Function('P', z3.BitVecSort(32), z3.BoolSort())
+
+    def pred_model(ex, st, fr, name, args, dty):
+        tup = args[1]
+        if isinstance(tup, VRef):
+            tup = ex.load(st, tup.cell, tup.path)
+        a = tup.fields[0] if isinstance(tup, VAgg) and tup.fields else tup
+        if not isinstance(a, VInt):
+            return None
+        return [(st, VBool(P(a.e)), 'ok', '')]
+    PM = [(re.compile(r'^<&?F as (\w+::)*Fn(Mut|Once)?<\(char,\)>>::call(_mut|_once)?$'), pred_model)]
+
+    def hexd(b):
+        return z3.Or(z3.And(z3.UGE(b, 48), z3.ULE(b, 57)), z3.And(z3.UGE(b, 65), z3.ULE(b, 70)), z3.And(z3.UGE(b, 97), z3.ULE(b, 102)))
+
+    def qf(b):   # pchar / "/" / "?" without '%': the fragment / query class, used only to turn a model into a native input
+        return z3.Or(z3.And(z3.UGE(b, 48), z3.ULE(b, 57)), z3.And(z3.UGE(b, 65), z3.ULE(b, 90)), z3.And(z3.UGE(b, 97), z3.ULE(b, 122)),
+                     *[b == ord(ch) for ch in "-._~!$&'()*+,;=:@/?"])
+    for N in (1, 2, 3, 4, 5):
+        st = State()
+        arr = z3.Array('seg', z3.BitVecSort(64), z3.BitVecSort(8))
+        st.mem['seg'] = VBytes(arr, z3.BitVecVal(0, 64), z3.BitVecVal(N, 64))
+        bs = [z3.Select(arr, z3.BitVecVal(i, 64)) for i in range(N)]
+        for b in bs:
+            st.pc.append(z3.And(z3.UGT(b, 32), z3.ULT(b, 127)))
+        paths, ex = A.paths(f, args=[VRef('seg'), VSym(('leaf', 'char_predicate'), 'F')], state=st, inline=r'.', unwind=N + 2, max_depth=10,
+                            extra_models=PM + strmodels.STR_MODELS + panicmodels.PANIC_MODELS)
+
+        def valid(i):
+            if i >= N:
+                return z3.BoolVal(True)
+            esc = z3.And(hexd(bs[i + 1]), hexd(bs[i + 2]), valid(i + 3)) if i + 2 < N else z3.BoolVal(False)
+            return z3.If(bs[i] == 37, esc, z3.And(P(z3.ZeroExt(24, bs[i])), valid(i + 1)))
+        ref = valid(0)
+        name = 'is_valid_url_segment/scanner=*(pct-encoded|P)[len %d]' % N
+        funcs = [short(f.name), 'is_valid_percent_encoded_char']
+        bad = None
+        for p in paths:
+            if p.kind != 'return':
+                bad = bad or (p, 'panic: ' + p.msg, z3.BoolVal(True))
+            elif isinstance(p.val, VBool) and p.consistent(p.val.e != ref):
+                bad = bad or (p, 'result differs from the ABNF reading', p.val.e != ref)
+        if not bad:
+            ctx.add(Ob(name, 'M', HELD, queries=len(paths), functions=funcs, bounds='printable-ASCII strings of %d bytes, every predicate P' % N,
+                       sample='%d paths, each equal to the reference for every P' % len(paths)))
+            continue
+        p, what, cond = bad
+        sol = z3.Solver()
+        sol.add(*p.st.pc)
+        sol.add(cond)
+        sol.add(*[P(z3.ZeroExt(24, b)) == qf(b) for b in bs])
+        if sol.check() != z3.sat:
+            ctx.add(Ob(name, 'M', INCONCLUSIVE, detail=what + ' (no model with P = the fragment class; not replayable natively)', functions=funcs))
+            continue
+        m = sol.model()
+        text = ''.join(chr(m.eval(b, model_completion=True).as_long()) for b in bs)
+        rep = {'scenario': 'did_segment', 'cex': {'text': text}}
+        res = run_replay(rep)
+        ctx.add(Ob(name, 'M', VIOLATED if res.get('reproduced') else INCONCLUSIVE,
+                   detail='%s: segment %r; native: %s' % (what, text, res.get('detail', '')[:200]), cex={'text': text}, replay=rep, functions=funcs))
+
+
 def parser_cursor(ctx):
     """The third-party did_url_parser (the version identity_did is locked to, MIR dumped from the cargo registry source): after
     parse_method_id succeeds the cursor - which becomes the *end* index of the method-specific id - lies inside the input.
@@ -449,6 +521,7 @@ def main(ctx):
                     'non-ASCII input beyond the character-class kernels']
     guarded(ctx, 'character classes', 'M', lambda: kernels(ctx, prog))
     guarded(ctx, 'constructor / setter audit', 'M', lambda: audits(ctx, prog))
+    guarded(ctx, 'URL segment scanner', 'M', lambda: segment_scanner(ctx, prog))
     guarded(ctx, 'third-party parser cursor', 'M', lambda: parser_cursor(ctx))
     if os.environ.get('VERIF_SKIP_K') != '1':
         guarded(ctx, 'local validators', 'K', lambda: kani_part(ctx))
